@@ -38,6 +38,8 @@ def t_dict(T):
         d = {"type": "case", "method": "upper" if T["flag"] else "lower"}
     elif ty == "setvalue":
         d = {"type": "set_value", "value": uncps(T["s2"])}
+    elif ty == "convtype":
+        d = {"type": "convert_type", "target_type": "num" if T["flag"] else "str"}
     elif ty == "regex":
         d = {"type": "regex", "method": uncps(T["s1"])}
     elif ty == "hashes":
